@@ -814,16 +814,30 @@ def inner_is_registry_rule(ck, F, rid="C08.R12"):
         return
     inner_ty = str(b.raw["locals"][2]) if len(b.raw.get("locals", [])) > 2 else None
     ofs = [t["callee"].get("targs", [None])[0] for bb, t in b.calls() if t["callee"].get("path") == "core::any::TypeId::of"]
-    reg = [x for x in ofs if x and x.endswith("registry::sharded::Registry")]
-    others = [x for x in ofs if x and not x.endswith("registry::sharded::Registry")]
+    REG = "registry::sharded::Registry"
+    reg = [x for x in ofs if x and (x.endswith(REG) or x.endswith(REG + ">"))]
+    others = [x for x in ofs if x and x not in reg]
     key = "Layered::new compares the inner value's type with Registry"
     if not reg:
         ck.ok(rid, key, fn=b.path, detail="no Registry special case in this configuration")
-    elif others == [inner_ty]:
+    elif others and set(others) == {inner_ty}:
         ck.ok(rid, key, fn=b.path, detail="TypeId::of::<%s>() == TypeId::of::<Registry>()" % inner_ty)
     else:
         ck.bad(rid, key, where(b.raw["sp"]), "inner_is_registry is computed from TypeId::of::<%s>, but the inner value has type %s: in an and_then tree over a Registry "
                "the inner *layer* is taken for the registry and its level hint is ignored" % (others, inner_ty), fn=b.path)
+
+
+    # Box<Registry> and Arc<Registry> are roots the crate accepts (register_filter / LookupSpan are forwarded for them): the
+    # stack must treat them as the registry too, else the registry's summed per-layer `never` is passed on unchanged and an
+    # unfiltered layer next to a filtered one is told nothing
+    k2 = "a Registry behind Box or Arc is recognised as the registry as well"
+    if reg:
+        have = {("Box" if "boxed::Box<" in x else "Arc" if "sync::Arc<" in x else "plain") for x in reg}
+        if {"Box", "Arc", "plain"} <= have:
+            ck.ok(rid, k2, fn=b.path, detail=sorted(have))
+        else:
+            ck.bad(rid, k2, where(b.raw["sp"]), "inner_is_registry is true only for %s: with Box<Registry> / Arc<Registry> as the root, pick_interest hands the registry's "
+                   "`never` (the sum of the per-layer filters) to the unfiltered layers, which then miss what only the filtered neighbour rejected" % sorted(have), fn=b.path)
 
 
 def pick_tables(ck, F, rid="C08.R14"):
